@@ -546,6 +546,21 @@ class Interp:
             # statement's source>, <lemma expression over the locals>)
             src = None
             for anchor, pat, hexpr in self.contract.hints:
+                if anchor == "assert_before_stmt":
+                    # a contract clause attached to a program point: must
+                    # hold whenever control reaches the matching statement
+                    if src is None:
+                        src = ast.unparse(st)
+                    if pat in src:
+                        saved_old = self.old_env
+                        self.old_env = getattr(self, "entry_old", saved_old)
+                        try:
+                            g = self.eval_spec(hexpr, env)
+                        finally:
+                            self.old_env = saved_old
+                        self.oblige(f"at[{pat}]@{self.cur_line}", g,
+                                    "stmt_assert")
+                    continue
                 if anchor != "before_stmt":
                     continue
                 if src is None:
